@@ -4,6 +4,9 @@ package main
 // shards (simple shards written with index.NewShardBuilder, compound shards with index.Merge,
 // tombstones with index.SetTombstone, trash with old/fresh/future mtimes, renamed repositories,
 // temp files), twice in a row. Mapped into the package by `go test -overlay`.
+// cleanup.go is mapped as a copy in which moveAll's os.Rename goes through the zzfs shim (translator/fsinstrument,
+// see props/C32/prop.py): in a quarter of the cases the renames of one or two shards are made to fail during the first
+// cleanup, which exercises moveAll's failure fallback ("failed to move shard, deleting all shards").
 
 import (
 	"fmt"
@@ -18,6 +21,7 @@ import (
 
 	"github.com/sourcegraph/zoekt"
 	"github.com/sourcegraph/zoekt/index"
+	"github.com/sourcegraph/zoekt/internal/zzfs"
 )
 
 const vfC32Now = int64(1700000000)
@@ -368,12 +372,75 @@ func TestVerifC32(t *testing.T) {
 		}
 
 		before := vfC32Observe(t, dir)
+		// ---- rename failures (moveAll's fallback): pick shard files that cleanup is likely to move
+		var plan zzfs.Plan
+		if r.Chance(25) {
+			// shards cleanup will probably move: trashed shards of assigned repositories that are not alive in the
+			// index (restore), simple shards of unassigned repositories (trashing); any other shard otherwise
+			var restore, trashing, other []string
+			aliveIdx := vfC32Alive(before.index)
+			for _, f := range before.trash {
+				if len(f.entries) == 1 && isAssigned[f.entries[0].id] && len(aliveIdx[f.entries[0].id]) == 0 {
+					restore = append(restore, f.base)
+				} else {
+					other = append(other, f.base)
+				}
+			}
+			for _, f := range before.index {
+				if f.compound {
+					continue
+				}
+				if len(f.entries) == 1 && !isAssigned[f.entries[0].id] {
+					trashing = append(trashing, f.base)
+				} else {
+					other = append(other, f.base)
+				}
+			}
+			for k := 0; k < 1+r.Intn(2); k++ {
+				cands := other
+				if len(restore) > 0 && r.Chance(45) {
+					cands = restore
+				} else if len(trashing) > 0 && r.Chance(70) {
+					cands = trashing
+				}
+				if len(cands) > 0 {
+					plan.Fail = append(plan.Fail, zzfs.Sel{Seq: -1, Kind: "Rename", Args: []string{"$/" + cands[r.Intn(len(cands))]}, Occ: -1})
+				}
+			}
+		}
+		zzfs.Reset(plan)
 		cleanup(dir, append([]uint32(nil), assigned...), now, sm)
+		var failIdx, failTrash []string // base names whose rename into the index / into the trash was made to fail
+		for _, op := range zzfs.Log() {
+			if op.Kind == "Rename" && op.Result == "injected" && len(op.Args) > 0 {
+				if filepath.Base(filepath.Dir(op.Args[0])) == ".trash" {
+					failIdx = append(failIdx, filepath.Base(op.Args[0]))
+				} else {
+					failTrash = append(failTrash, filepath.Base(op.Args[0]))
+				}
+			}
+		}
+		zzfs.Reset(zzfs.Plan{})
+		failedID := map[uint32]bool{} // repositories whose restore from the trash hit a failing rename
+		for _, b := range failIdx {
+			if f := vfC32Find(before.trash, b); f != nil {
+				for _, e := range f.entries {
+					failedID[e.id] = true
+				}
+			}
+		}
+		if len(failIdx) > 0 {
+			classes = append(classes, "rename-failure:restore")
+		}
+		if len(failTrash) > 0 {
+			classes = append(classes, "rename-failure:trashing")
+		}
 		after1 := vfC32Observe(t, dir)
 		cleanup(dir, append([]uint32(nil), assigned...), now, sm)
 		after2 := vfC32Observe(t, dir)
 
 		replay := map[string]any{"shardMerging": sm, "assigned": assigned, "now": vfC32Now, "before": vfC32Desc(before),
+			"renames_failed_into_index": failIdx, "renames_failed_into_trash": failTrash,
 			"after": vfC32Desc(after1), "after_second_cleanup": vfC32Desc(after2), "seed": vfSeed(), "case": ci}
 
 		// ---- Go-side oracle of the property
@@ -442,6 +509,11 @@ func TestVerifC32(t *testing.T) {
 				if id == dupID {
 					// assumption of assigned_restored_from_trash violated (C32_assigned_restored_duplicate_id_refuted)
 					classes = append(classes, "duplicate-assigned-id:in-trash")
+					continue
+				}
+				if failedID[id] {
+					// moveAll's fallback deletes all shards of the repository it could not move
+					classes = append(classes, "rename-failure:restore:repository-dropped")
 					continue
 				}
 				for _, f := range trashB[id] {
@@ -520,7 +592,7 @@ func TestVerifC32(t *testing.T) {
 			id := ids[0]
 			old, conflict := trashOld(id), len(aliveB[id]) > 0
 			restored := vfC32Find(after1.index, f.base) != nil && isAssigned[id]
-			if id == dupID && dupID != 0 {
+			if (id == dupID && dupID != 0) || failedID[id] {
 				continue
 			}
 			if g == nil && !old && !conflict && !restored {
@@ -590,7 +662,16 @@ func TestVerifC32(t *testing.T) {
 		for _, id := range assigned {
 			ids = append(ids, uint64(id))
 		}
-		coq := cTuple(cBool(sm), cNList(ids), vfC32DirTerm(before, baseID), vfC32DirTerm(after1, baseID), vfC32DirTerm(after2, baseID))
+		baseList := func(names []string) string {
+			var l []uint64
+			for _, b := range names {
+				if id, ok := baseID[b]; ok {
+					l = append(l, id)
+				}
+			}
+			return cNList(l)
+		}
+		coq := cTuple(cBool(sm), cNList(ids), cTuple(baseList(failIdx), baseList(failTrash)), vfC32DirTerm(before, baseID), vfC32DirTerm(after1, baseID), vfC32DirTerm(after2, baseID))
 		nontrivial := len(before.index) >= 2 && (len(before.trash) > 0 || nc > 0) && fmt.Sprint(before) != fmt.Sprint(after1)
 		vfCase(coq, vfKey(sm, assigned, before), nontrivial, classes,
 			map[string]any{"shardMerging": sm, "assigned": assigned, "before": vfC32Desc(before), "after": vfC32Desc(after1)})
